@@ -21,11 +21,11 @@ T.ALPHABETS['c04roles'] = {
     'refs': 'all+aligned0',
 }
 T.ALPHABETS['c04roles5'] = dict(T.ALPHABETS['c04roles'], roles=[':ARG0-of', ':consist-of', ':consist-of-of', ':mod-of', ':r-of-of-of'], concepts=[T.ABSENT, 'x'])
-T.ALPHABETS['c04wide'] = dict(T.ALPHABETS['wide'], roles=T.ALPHABETS['wide']['roles'] + [':r-of-of'])
+T.ALPHABETS['c04wide'] = dict(T.ALPHABETS['wide'], roles=T.ALPHABETS['wide']['roles'] + [':r-of-of', ':q-of-k'])
 
 T.ALPHABETS['c04text'] = {
     'concepts': [T.ABSENT, 'x', '"s\u2028t"', 'x\u0085y~1'],
-    'roles': [':r', ':r-of', ':r\u0085b', ':r\u2028-of~1', ':\x1c'],
+    'roles': [':r', ':r-of', ':r\u0085b', ':r\u2028-of~1', ':\x1c', ':consist-of'],
     'atoms': ['k', '"s\u2028t"~2', 'k\x0cb', '"\x0b~3"', None],
     'refs': 'all+aligned0',
 }
@@ -87,6 +87,12 @@ def check(case, ctx):
                         continue
                     want = RI.interpret(r[1], rm)
                 g = penman.decode(text, model=pm)
+                # the same text with no blank before a role (a ':' ends a symbol): same reading
+                tight = text.replace(' :', ':')
+                g_tight = penman.decode(tight, model=pm)
+                if list(g_tight.triples) != list(g.triples) or g_tight.top != g.top:
+                    ctx.fail(f'decoding depends on a blank before a role under {name}', expected=list(g.triples), observed=[tight, list(g_tight.triples)])
+                    return
             else:
                 g = layout.interpret(Tree(t), pm)
         except Exception as e:      # noqa: BLE001
